@@ -33,6 +33,9 @@ def verify(pid, k):
         if a.returncode == 0:
             d1 = sh([PY, "demo_seed.py"], cwd=wt, timeout=1800, env=env)
             res["demo_patched_rc"] = d1.returncode; res["demo_patched_tail"] = (d1.stdout + d1.stderr)[-800:]
+            for f in os.listdir(src):          # helper modules of the demo (e.g. a fake mosek) must not leak into the suite
+                if f.endswith(".py") and os.path.exists(os.path.join(wt, f)) and f != "demo.py": os.remove(os.path.join(wt, f))
+            os.remove(os.path.join(wt, "demo_seed.py"))
             t0 = time.time()
             s = sh([PY, "-m", "pytest", "-q", "-p", "no:cacheprovider", "--timeout=900", "tests", "-x", "--deselect",
                     "tests/test_examples.py::TestExamplesCVXPY::test_gradient_descent_lc", "--deselect",
